@@ -50,7 +50,8 @@ def run_action(prog, p, **opts):
     key = (prog.tree_hash, prog.config, p.label, tuple(sorted((k, repr(v)) for k, v in opts.items())))
     if key in _CACHE:
         return _CACHE[key]
-    o = dict(max_seconds=120, counter_delta=True, stubs=STUBS, merge_returns=False)
+    o = dict(max_seconds=120, counter_delta=True, stubs=STUBS, merge_returns=False,
+             trace_returns=frozenset(["adsb_deku::adsb::AirborneVelocity::calculate", "rsadsb_common::AirplaneCoor::update_position"]))
     o.update(opts)
     ip = entry.new_interp(prog, **o)
     st = State()
